@@ -401,11 +401,14 @@ def rule_cap(fx, rep, new, info):
     for b in fx.fn_bodies():
         if b.name == new.name or "::tests::" in b.name:
             continue
+        lw = [(bb, idx, adt, fld) for (bb, idx, adt, fld, kind, place) in b.field_writes() if norm(adt) == TS and fld in ("soft_stop", "hard_stop")]
+        if not lw:
+            continue
         callers = fx.callers_of(lambda nm, b=b: fx.body(nm) is not None and fx.body(nm).name == b.name)
         if callers and all(cb.name == new.name for (cb, _bb, _t) in callers):
             continue  # a private helper of the constructor
-        for (bb, idx, adt, fld, kind, place) in b.field_writes():
-            if norm(adt) == TS and fld in ("soft_stop", "hard_stop"):
+        for (bb, idx, adt, fld) in lw:
+            if True:
                 n += 1
                 rep.obligation(False)
                 ok = False
